@@ -515,6 +515,82 @@ func scenStreamReplaced(tr *vtrace.Tracer, kind string) error {
 	return nil
 }
 
+// C09/C18: TLC's counterexample to NoStrandedCall on the model with the eager
+// connect: the receiver sleeps in its back-off after a crash; the server is back;
+// the sender re-creates the stream for a new request (pending: its handler does
+// not answer) and the receiver, woken, has not yet looked at the new stream when
+// that stream is cancelled (another call's context ends while it is being
+// written).  The receiver then creates a third stream.  The request pending on
+// the second stream - which the receiver never read from - must be failed.
+func scenStreamDiesUnseen(tr *vtrace.Tracer, kind string) error {
+	switch kind {
+	case "Ucast", "UcastNsw", "Mcast", "McastNsw":
+		kind = "Rpc" // a one-way call is never pending for a reply
+	}
+	l, err := newLife(tr, EnvOpts{Nodes: 1, MgrOpts: []gorums.ManagerOption{gorums.WithBackoff(slowBackoff)}})
+	if err != nil {
+		return err
+	}
+	defer l.finish()
+	a := l.call("Rpc", 1, false, false)
+	if !l.wait(a, SyncTimeout) {
+		return fmt.Errorf("first call did not complete")
+	}
+	from := tr.Len()
+	l.e.Server(1).Stop()
+	if !l.awaitEv(from, SyncTimeout, "ReconSleep", 1) {
+		return fmt.Errorf("receiver did not start reconnecting")
+	}
+	if err := l.e.Server(1).Start(); err != nil {
+		return err
+	}
+	ready := false
+	for i := 0; i < 300 && !ready; i++ {
+		ready = gorums.VerifRedialNow(l.e.Node(1).RawNode)
+		time.Sleep(10 * time.Millisecond)
+	}
+	if !ready {
+		return fmt.Errorf("transport did not become ready")
+	}
+	// the receiver, once woken, is held before it takes the stream lock
+	gr := tr.NewGate(func(e vtrace.Event) bool { return e.Ev == "ReconLockWait" && e.Node == 1 && e.Int("who") < 0 })
+	pos := tr.Len()
+	b := l.call(kind, 1, false, true) // pending on the second stream
+	l.mustServe(b)
+	if !l.awaitEv(pos, SyncTimeout, "HStart", 1) {
+		gr.Open()
+		return fmt.Errorf("handler of the pending call did not start")
+	}
+	if !gr.Arrived(SyncTimeout) {
+		gr.Open()
+		return fmt.Errorf("receiver was not woken")
+	}
+	// cancel the second stream: a context ends while its request is being written
+	gs := l.gate("SendWait", 1)
+	c := l.call("Rpc", 1, false, false)
+	if !gs.Arrived(SyncTimeout) {
+		gr.Open()
+		gs.Open()
+		return fmt.Errorf("sender did not reach SendWait")
+	}
+	pos = tr.Len()
+	l.endCtx(c)
+	tr.Await(pos, SyncTimeout, func(e vtrace.Event) bool { return e.Ev == "WatcherCancel" })
+	gs.Open()
+	l.wait(c, SyncTimeout)
+	// the next request makes the sender notice the broken stream
+	for i := 0; i < 2; i++ {
+		x := l.call("Rpc", 1, false, false)
+		l.wait(x, 100*time.Millisecond)
+	}
+	gr.Open() // the receiver goes on: it creates a third stream
+	l.wait(b, QuietT)
+	p := l.call("Rpc", 1, true, false)
+	l.wait(p, QuietT)
+	l.quiescent()
+	return nil
+}
+
 // C03: FIFO across a stream break with a send buffer.  The first of several
 // asynchronous / one-way calls is being written (sender held before SendMsg),
 // the others wait in the send buffer; the server is restarted, so the write
@@ -1021,6 +1097,7 @@ var LifeScenarios = map[string][]LifeScenario{
 		{Name: "stream-outruns-call", Kind: "CorrStream", Run: scenStreamOutrunsCall},
 		{Name: "stream-replaced", Run: scenStreamReplaced},
 		{Name: "stream-ctx-while-queued-full", Kind: "CorrStream", Run: scenStreamCtxWhileQueuedFull},
+		{Name: "stream-dies-unseen", Run: scenStreamDiesUnseen},
 		{Name: "ctx-before-send", Run: scenCtxBeforeSend},
 		{Name: "ctx-while-written", Run: scenCtxWhileWritten},
 	},
